@@ -215,9 +215,30 @@ def _norm0(t):
             parts = list(old[1]) if old[0] == 'concat' else [old]
             parts.append(args[0] if args else ('undef',))
             return ('concat', tuple(parts))
-        if _is_next(callee):
-            return ('mut', callee, old, args)
-        return ('mut', callee, old, args)
+        if re.search(r'core::slice::<impl \[.*\]>::(copy_from_slice|clone_from_slice)$', callee) and len(t) > 4 and len(t[4]) == 1 and args:
+            # `buf[a..b].copy_from_slice(src)` on a fixed-size buffer: bytes a..b are src (the call traps unless src is b-a long);
+            # a buffer whose writes tile it completely is the concatenation of the sources
+            rng = _const_range(norm(t[4][0]))
+            buf = (int(str(old[2]).split('_')[0]), []) if old[0] == 'repeat' and re.match(r'^\d+(_usize)?$', str(old[2])) else \
+                (old[1], list(old[2])) if old[0] == 'bytesbuf' else None
+            if rng and buf:
+                n, segs = buf
+                lo, hi = rng
+                hi = n if hi is None else hi
+                if 0 <= lo < hi <= n:
+                    segs = [s_ for s_ in segs if not (lo <= s_[0] and s_[1] <= hi)]
+                    if all(s_[1] <= lo or s_[0] >= hi for s_ in segs):
+                        segs = sorted(segs + [(lo, hi, args[0])], key=lambda s_: s_[0])
+                        pos = 0
+                        for s_ in segs:
+                            if s_[0] != pos:
+                                break
+                            pos = s_[1]
+                        else:
+                            if pos == n:
+                                return ('concat', tuple(s_[2] for s_ in segs))
+                        return ('bytesbuf', n, tuple(segs))
+        return ('mut', callee, old, args) + tuple(t[4:])
     if h == 'phi':
         alts = _uniq([norm(a) for a in t[1]])
         # Vec built by push_back in a loop
@@ -267,6 +288,12 @@ def _norm0(t):
                     return x
         if base[0] == 'tuple' and t[1].isdigit() and int(t[1]) < len(base[1]):
             return base[1][int(t[1])]
+        if base[0] == 'bin' and base[1] in ('AddWithOverflow', 'SubWithOverflow', 'MulWithOverflow') and t[1] in ('0', '1') \
+                and base[2][0] == 'const' and base[3][0] == 'const':
+            # checked arithmetic on two literal / named constants (`2 * HASH_LEN`): the compiler's own overflow check is decided
+            f = _fold_checked(base[1], base[2][1], base[3][1])
+            if f is not None:
+                return f[int(t[1])]
         if base[0] == 'phi':
             return norm(('phi', tuple(('field', t[1], a) for a in base[1])))
         return ('field', t[1], base)
@@ -443,6 +470,33 @@ def const_value(t):
     if isinstance(t, tuple) and t[0] == 'const':
         return t[1]
     return None
+
+
+def _const_range(r):
+    """(lo, hi) of a `a..b` / `..b` / `a..` range term with literal bounds (hi None = to the end)"""
+    if r[0] != 'struct':
+        return None
+    f = dict(r[2])
+    name = r[1].rsplit('::', 1)[-1]
+    lo = const_int(f['start']) if 'start' in f else 0
+    hi = const_int(f['end']) if 'end' in f else None
+    if name not in ('Range', 'RangeTo', 'RangeFrom') or lo is None or ('end' in f and hi is None):
+        return None
+    return (lo, hi)
+
+
+def _fold_checked(op, a, b):
+    ma = re.match(r'^(-?\d+)_([iu])(\d+|size)$', a)
+    mb = re.match(r'^(-?\d+)_([iu])(\d+|size)$', b)
+    if not ma or not mb or ma.group(2) != mb.group(2) or ma.group(3) != mb.group(3):
+        return None
+    bits = 32 if ma.group(3) == 'size' else int(ma.group(3))      # usize: the narrower of host / wasm32
+    x, y = int(ma.group(1)), int(mb.group(1))
+    r = x + y if op == 'AddWithOverflow' else x - y if op == 'SubWithOverflow' else x * y
+    lo, hi = (0, 2 ** bits - 1) if ma.group(2) == 'u' else (-2 ** (bits - 1), 2 ** (bits - 1) - 1)
+    if not (lo <= r <= hi):
+        return None
+    return (('const', '%d_%s%s' % (r, ma.group(2), ma.group(3))), ('const', 'false'))
 
 
 def const_int(t):
